@@ -5,6 +5,7 @@ package directinvoke
 import (
 	"bytes"
 	"context"
+	"go.amzn.com/lambda/core/bandwidthlimiter"
 	"io"
 	"math"
 	"net"
@@ -230,6 +231,12 @@ func VerifC17BucketParams() {
 	w := newVerifRecorder()
 	bw, cancel, err := NewStreamedResponseWriter(w)
 	verifAssert(err == nil && bw != nil && cancel != nil, "validated parameters always give a writer")
+	// the bucket realises the configured bound burst + rate x elapsed: it starts full at the burst
+	// size, never holds more, and is refilled with rate x interval tokens per interval
+	capacity, tokens, refill, interval := bandwidthlimiter.VerifBucketParams(bw)
+	verifAssert(capacity == burst && tokens == burst, "the bucket holds at most (and initially exactly) the configured burst")
+	ms := int64(interval / time.Millisecond)
+	verifAssert(ms > 0 && refill*1000 <= rate*ms && refill*1000 > rate*ms-1000, "the refill per interval corresponds to the configured rate")
 	verifReach("writer")
 }
 
